@@ -91,6 +91,16 @@ CHECKS = {
          "alternation at open/write/read/close are validated against the specification: outcome = reference, tables unchanged.",
     note="all module-level dict/list/tuple/scalar attributes of every iodata module are digested; warnings-module state is not a listed table",
     technique="TLA+ model (ApiGlobals.tla) checked with TLC + trace validation of sequential histories and thread schedules against fresh-interpreter references"),
+ "C09": dict(
+    category="model_checking", design_ref="DESIGN.md section 6 C09",
+    text="TLC checks HeapFrozen, AsIsOrRefused, ConversionAnnounced, SameObjectWhenNothingToConvert on every scenario of the "
+         "DumpFrame model (operation x object kind x allow_changes x 1..3 repeated dumps); ~2000 (quick) real dump sequences "
+         "(generator variants of all 13 formats, every corpus-loadable object incl. QCSchema objects with nested extra, dump_many, "
+         "both input writers) record a deep before/after diff of everything reachable from the arguments (raw fields, derived "
+         "properties, array bytes and flags, nested dict/list contents), return identity, warnings and wavefunction equivalence of "
+         "converted objects, and are validated against the model by TLC.",
+    note="default core charges are materialised before the first snapshot; for corpus objects the abstract kind is inferred from the first outcome",
+    technique="TLA+ model (DumpFrame.tla) checked with TLC + trace validation of deep heap diffs around real dump calls"),
 }
 NOT_YET = "check not built yet in this round (planned, see DESIGN.md section 6)"
 
